@@ -105,13 +105,19 @@ CLAIMS = {
  "C08": dict(
     category="proof",
     text=("Proved: every state-changing entry point is refused while a time-limited continue is unfinished; a blocking "
-          "continue always completes a paused one and leaves the story quiescent; the recursion count is balanced "
-          "over pauses. NOT proved (stated in Proofs/C08.lean): the full sliced = blocking equivalence (partial) — "
-          "decided by the oracle over every single pause position, pause-after-every-step and random schedules on "
-          "the virtual step clock, compared line by line and over the whole story with the unsliced run, and by the tie."),
+          "continue always completes a paused one; the recursion count is balanced over pauses; and sliced = blocking: "
+          "for ANY story and ANY sequence of step budgets, finishing a line with time-limited continues (plus, if "
+          "needed, a final blocking one) ends in the same result and the SAME story (all fields: state with output, "
+          "choices, variables, visit counts, call stack; snapshot; events incl. observer notifications and external "
+          "calls) as the single blocking continue (sliced_eq_blocking, 2000 lines incl. the proof that the "
+          "look-ahead-unsafe flag is consumed by the step that raises it). Hypotheses: the model's own fuel is not "
+          "exhausted, and at each pause either no error handler is installed or no warning is pending (a handler "
+          "receives pending warnings at a pause, which changes WHEN they are delivered — characterised by "
+          "pause_delivers_warnings). Oracle: every single pause position, pause-after-every-step and random "
+          "schedules on the virtual step clock vs the unsliced run, and the tie."),
     design_ref="DESIGN.md section 5 C08",
     note="As C09. Time is the virtual step clock (hook); the real clock truncates to whole milliseconds.",
-    technique="Lean 4 theorems (partial) + differential correspondence + exhaustive pause-position oracle"),
+    technique="Lean 4 theorems (sliced = blocking for all stories and schedules) + differential correspondence + exhaustive pause-position oracle"),
  "C02": dict(
     category="proof",
     text=("Proved for all values: the save codec of stack objects (control commands, native calls, strings, ints, "
@@ -225,6 +231,21 @@ CLAIMS = {
     design_ref="DESIGN.md section 5 C20",
     note="Input lines contain ASCII white space only; stats mode (-s) is not modelled.",
     technique="Lean 4 theorems over a model of the tool's output + exact differential tie of stdout / stderr / exit status"),
+ "C18": dict(
+    category="proof",
+    text=("Model: reference counting as a graph of strong references (Ink/Heap.lean). Proved: if some rank strictly "
+          "increases along every strong reference, every object is freed once the host drops its references "
+          "(ranked_no_leak, within n rounds, tight); a set of objects that own each other is never freed "
+          "(cycle_leaks); an object leaks iff it is reachable from a strong cycle (leak_iff_cycle). Tie to the code: "
+          "the inventory of all Rc / Weak fields of the runtime's data structures is regenerated from the source on "
+          "every run and compared with the reviewed ranking c18_edges.json (story < state objects < content tree by "
+          "depth < values; a reference from the tree into the tree must be weak). Oracle: under a counting "
+          "allocator, live bytes after each of 12 create-play-drop cycles, and after each reset+replay / save+load "
+          "round on one instance, do not grow (recorded histories with saves, loads, resets, flows, path jumps, host "
+          "evaluations)."),
+    design_ref="DESIGN.md section 5 C18",
+    note="The link between the graph theorem and the code is the reviewed field ranking (static) plus the allocator oracle (dynamic); the real heap graph is not extracted.",
+    technique="Lean 4 no-leak theorem for reference counting + regenerated Rc-field inventory + counting-allocator oracle"),
 }
 
 REASONS_PENDING = "check not built yet in this revision of /verif (see DESIGN.md section 9.1 for the order of work)"
